@@ -101,3 +101,17 @@ package metadatapart
 //@ effect[C11:create-upload-carries-supplied-values] every mbs.metadataStore.CreateMultipartUpload(_, _, $b, $k, $ct, $cst, $o)
 //@     where $b == bucketName && $k == key && specSameOpt($ct, contentType) && (opts == nil ==> $o == nil) &&
 //@         (opts != nil ==> $o != nil && same($o.Tags, opts.Tags) && $o.Metadata == opts.Metadata && specSameOpt($o.StorageClass, opts.StorageClass))
+
+// C12. AppendObject: inside the write transaction (every metadata-store call of this closure uses its transaction: C03) the write offset is compared
+// with the size of the object as read in that transaction (0 when there is none); the appended object is the existing
+// size plus the new part; a lost compare-and-swap in the metadata store surfaces as InvalidWriteOffset.
+//@ func (*metadataPartStorage).AppendObject$1
+//@ mode effects
+//@ trust nonnil metadatastore.MetadataStore.GetBucketVersioningConfiguration
+//@ effect[C12:offset-guard-inside-the-transaction] every mbs.metadataStore.AppendObject(_, _, $b, $o, _) if opts != nil && opts.WriteOffset != nil
+//@     where (existingObject == nil ==> *opts.WriteOffset == 0) && (existingObject != nil ==> *opts.WriteOffset == existingObject.Size)
+//@ effect[C12:object-read-in-the-append-transaction] every mbs.metadataStore.AppendObject(_, _, $b, $o, _)
+//@     needs before mbs.metadataStore.HeadObject(_, _, $hb, $hk) where $hb == bucketName && $hk == key && $b == bucketName
+//@ effect[C12:size-is-old-size-plus-new-part] every mbs.metadataStore.AppendObject(_, _, _, $o, _) if existingObject != nil && newPartSize != nil
+//@     where $o != nil && $o.Size == existingObject.Size + *newPartSize && $o.Key == key
+//@ ensures[C12:lost-race-is-invalid-write-offset] called(mbs.metadataStore.AppendObject) && result_of(mbs.metadataStore.AppendObject, 1) == storage.ErrCASFailure ==> err == storage.ErrInvalidWriteOffset
